@@ -58,7 +58,7 @@ structure Algo (σ ω : Type) where
   obs : σ → ω
 
 /-- the members of the base class that `Iterate` / `Sample` / the getters read or write -/
-structure Sim (σ ω : Type) where
+structure SimSt (σ ω : Type) where
   /-- `mesh_x` (+ `rng`) -/
   x : σ
   t : Rat
@@ -70,30 +70,30 @@ structure Sim (σ ω : Type) where
   /-- `sampled_t` zipped with `sampled_mesh_x` -/
   recs : List (Rat × ω)
 
-namespace Sim
+namespace SimSt
 variable {σ ω : Type}
 
 /-- `Sample()` -/
-def sample (A : Algo σ ω) (s : Sim σ ω) : Sim σ ω :=
+def sample (A : Algo σ ω) (s : SimSt σ ω) : SimSt σ ω :=
   if s.done then s else { s with recs := s.recs ++ [(s.t, A.obs s.x)], done := true }
 
 /-- the `while` of `SampleOnTSample`, run on the not yet consumed requests `t_samples[sample_pos..]`:
 `sample_pos<n_samples` = "the list is not empty", `t>=t_samples[sample_pos]` tests its head -/
-def tsLoop (A : Algo σ ω) (s : Sim σ ω) : List Rat → Sim σ ω
+def tsLoop (A : Algo σ ω) (s : SimSt σ ω) : List Rat → SimSt σ ω
   | [] => s
   | τ :: rest => if τ ≤ s.t then tsLoop A { (s.sample A) with samplePos := s.samplePos + 1 } rest else s
 
 /-- `SampleOnTSample()` -/
-def sampleOnTSample (A : Algo σ ω) (cfg : SamplerCfg) (s : Sim σ ω) : Sim σ ω :=
+def sampleOnTSample (A : Algo σ ω) (cfg : SamplerCfg) (s : SimSt σ ω) : SimSt σ ω :=
   tsLoop A s (cfg.tSamples.drop s.samplePos)
 
 /-- `SampleOnInterval()` -/
-def sampleOnInterval (A : Algo σ ω) (cfg : SamplerCfg) (s : Sim σ ω) : Sim σ ω :=
+def sampleOnInterval (A : Algo σ ω) (cfg : SamplerCfg) (s : SimSt σ ω) : SimSt σ ω :=
   let r := tsiRatio s.t cfg.interval
   if r.gt s.lastTsi then { (s.sample A) with lastTsi := r } else s
 
 /-- `SamplingStep()`: the `switch` has no default, other codes do nothing -/
-def samplingStep (A : Algo σ ω) (cfg : SamplerCfg) (s : Sim σ ω) : Sim σ ω :=
+def samplingStep (A : Algo σ ω) (cfg : SamplerCfg) (s : SimSt σ ω) : SimSt σ ω :=
   match cfg.policy with
   | 0 => sampleOnTSample A cfg s
   | 1 => s.sample A
@@ -101,19 +101,19 @@ def samplingStep (A : Algo σ ω) (cfg : SamplerCfg) (s : Sim σ ω) : Sim σ ω
   | _ => s
 
 /-- `CheckTMax()` -/
-def checkTMax (cfg : SamplerCfg) (s : Sim σ ω) : Sim σ ω :=
+def checkTMax (cfg : SamplerCfg) (s : SimSt σ ω) : SimSt σ ω :=
   if 0 ≤ cfg.tMax ∧ cfg.tMax < s.t then { s with complete := true } else s
 
 /-- the members as `Init` leaves them before its final `SamplingStep()` -/
-def fresh (x0 : σ) : Sim σ ω :=
+def fresh (x0 : σ) : SimSt σ ω :=
   { x := x0, t := 0, samplePos := 0, lastTsi := .fin (-1), done := false, complete := false, recs := [] }
 
 /-- `Init(...)`: everything reset, then `SamplingStep()` "for t0 sampling if necessary" -/
-def init (A : Algo σ ω) (cfg : SamplerCfg) (x0 : σ) : Sim σ ω := samplingStep A cfg (fresh x0)
+def init (A : Algo σ ω) (cfg : SamplerCfg) (x0 : σ) : SimSt σ ω := samplingStep A cfg (fresh x0)
 
 /-- `Iterate()` of all six algorithms: new members and the returned `!complete` -/
-def iterate (A : Algo σ ω) (cfg : SamplerCfg) (s : Sim σ ω) : Sim σ ω × Bool :=
-  let s0 : Sim σ ω := { s with done := false }
+def iterate (A : Algo σ ω) (cfg : SamplerCfg) (s : SimSt σ ω) : SimSt σ ω × Bool :=
+  let s0 : SimSt σ ω := { s with done := false }
   if s0.complete then (s0, false)
   else
     match A.step s0.x with
@@ -123,20 +123,20 @@ def iterate (A : Algo σ ω) (cfg : SamplerCfg) (s : Sim σ ω) : Sim σ ω × B
       (s1, !s1.complete)
 
 /-- the state after `Iterate()` -/
-def next (A : Algo σ ω) (cfg : SamplerCfg) (s : Sim σ ω) : Sim σ ω := (iterate A cfg s).1
+def next (A : Algo σ ω) (cfg : SamplerCfg) (s : SimSt σ ω) : SimSt σ ω := (iterate A cfg s).1
 
 /-- `n` calls of `Iterate()` -/
-def iter (A : Algo σ ω) (cfg : SamplerCfg) : Nat → Sim σ ω → Sim σ ω
+def iter (A : Algo σ ω) (cfg : SamplerCfg) : Nat → SimSt σ ω → SimSt σ ω
   | 0, s => s
   | n + 1, s => iter A cfg n (next A cfg s)
 
 /-- `GetProgress()` -/
-def progress (cfg : SamplerCfg) (s : Sim σ ω) : Rat :=
+def progress (cfg : SamplerCfg) (s : SimSt σ ω) : Rat :=
   if 0 < cfg.tMax then 100 * s.t / cfg.tMax else 0
 
 /-- `engineexport_iterate_n(n)`: the `for` with its `break`; returns the members and `unfinished`
 (`true` when the loop body never runs) -/
-def iterateN (A : Algo σ ω) (cfg : SamplerCfg) : Nat → Sim σ ω → Sim σ ω × Bool
+def iterateN (A : Algo σ ω) (cfg : SamplerCfg) : Nat → SimSt σ ω → SimSt σ ω × Bool
   | 0, s => (s, true)
   | n + 1, s =>
     let r := iterate A cfg s
@@ -144,13 +144,13 @@ def iterateN (A : Algo σ ω) (cfg : SamplerCfg) : Nat → Sim σ ω → Sim σ 
 
 /-- `engineexport_run(breathe_dt)`: `for(;;)` with the wall-clock test; `k` is the number of further
 iterations after which the elapsed-time test first succeeds (the clock is an external parameter) -/
-def run (A : Algo σ ω) (cfg : SamplerCfg) : Nat → Sim σ ω → Sim σ ω × Bool
+def run (A : Algo σ ω) (cfg : SamplerCfg) : Nat → SimSt σ ω → SimSt σ ω × Bool
   | 0, s => iterate A cfg s
   | k + 1, s =>
     let r := iterate A cfg s
     if r.2 then run A cfg k r.1 else r
 
-end Sim
+end SimSt
 
 /-! ### Export -/
 
